@@ -27,12 +27,13 @@ func tierN(tier string, quick, thorough int) int {
 }
 
 type seqHarness struct {
-	prop string
-	r    *core.R
-	rng  *rand.Rand
-	dir  string
-	L    *shard.Leader
-	M    *refmodel.Model
+	idxSlash bool // C15: secondary keys and probes contain '/'
+	prop     string
+	r        *core.R
+	rng      *rand.Rand
+	dir      string
+	L        *shard.Leader
+	M        *refmodel.Model
 
 	liveSessions   []int64
 	closedSessions []int64
